@@ -28,7 +28,7 @@ RULE = ("argv grammar over the five sub-commands and the global options with val
         "to file, dangling symlink, missing parent, file-as-parent; option order permutations, duplicated options, missing "
         "command, unknown options); each argv run in-process (audit hook + probes) and a sample as real subprocesses (directory "
         "diff, some under strace); distinct = distinct (monitor, case) digests"
-        " EXTENSIONS: + decoy sibling files (target.tmp, target~, .target.swp ...) that must survive, symlinks with relative targets named from another directory / chained / to the parent directory, accounts equal to meaningful numbers, values wrapping modulo 2^32, reversed straddling intervals, the request handed to PaperWallet.generate for intervals of K-1 .. 2K+1 rows per harvested K and of 2^31 rows (recorder; mismatch confirmed end to end in fast mode), export targets on another file system (EXDEV for rename / link) with decoys there, odd file names ('-', '~', leading blank) and '~/wallet.json' with HOME holding that file")
+        " EXTENSIONS: + decoy sibling files (target.tmp, target~, .target.swp ...) that must survive, symlinks with relative targets named from another directory / chained / to the parent directory, accounts equal to meaningful numbers, values wrapping modulo 2^32, reversed straddling intervals, the request handed to PaperWallet.generate for intervals of K-1 .. 2K+1 rows per harvested K and of 2^31 rows (recorder; mismatch confirmed end to end in fast mode), export targets on another file system (EXDEV for rename / link) with decoys there, the file name '-' (a file or standard output) and '~/wallet.json' with HOME holding that file")
 LEVEL_TEXT = ("Outcome-based monitor on real CLI executions: a non-zero exit must come with no wallet data on stdout and no "
               "file created or modified (directory diff + audit 'open' events + strace on a sample); exit 0 must print/save JSON "
               "identical to what the library API returns for the same secret/network/account/interval (through an independent "
@@ -511,7 +511,7 @@ def install_probes():
 
 # ------------------------------------------------------------------ generators
 FILE_KINDS = ["none", "none", "none", "none", "new", "new", "new-in-subdir", "new-absolute", "new-on-other-filesystem", "new-on-other-filesystem-absolute",
-              "existing", "existing-absolute", "directory", "odd-name-dash", "odd-name-tilde", "odd-name-space", "tilde-existing",
+              "existing", "existing-absolute", "directory", "odd-name-dash", "tilde-existing",
               "symlink-to-file", "dangling-symlink", "missing-parent", "file-as-parent", "empty", "dot",
               "symlink-in-subdir-relative", "symlink-in-subdir-via-absolute-path", "symlink-chain", "symlink-to-parent-file"]
 ACCOUNTS = [("valid", "0"), ("valid", "1"), ("valid", "7"), ("valid", "44"), ("valid", "49"), ("valid", "84"), ("valid", "83696968"), ("valid", "1000000"),
@@ -707,7 +707,7 @@ def gen_case(rnd, j):
         if not clean or fault == "valid":
             break
     case = {"cmd": cmd, "cmd_args": args, "source": src, "fault": fault, "testnet": rnd.random() < 0.4, "paranoia": rnd.random() < 0.4,
-            "file": {"kind": rnd.choice(["none", "none", "new", "new-in-subdir", "new-absolute", "dangling-symlink", "new-on-other-filesystem", "new-on-other-filesystem-absolute", "odd-name-dash", "odd-name-space"] if clean else FILE_KINDS),
+            "file": {"kind": rnd.choice(["none", "none", "new", "new-in-subdir", "new-absolute", "dangling-symlink", "new-on-other-filesystem", "new-on-other-filesystem-absolute", "odd-name-dash"] if clean else FILE_KINDS),
                      "flag": rnd.choice(["-f", "--file"])}}
     if rnd.random() < 0.6:
         atag, a = rnd.choice([x for x in ACCOUNTS if x[0] in ("valid", "lenient")] if clean else ACCOUNTS)
